@@ -605,6 +605,10 @@ pub fn exec_plan(
         None
     };
     if let Some(name) = &stuck {
+        ex.probes.insert("oldest_member_cannot_be_deleted");
+        if want_trace {
+            ex.trace.push(format!("the oldest member {name} cannot be deleted (path {:?})", crate::simfs::norm(std::path::Path::new(&file_path(name)))));
+        }
         fs.lock().undeletable.insert(crate::simfs::norm(std::path::Path::new(&file_path(name))));
     }
     if plan.raw_stranger {
